@@ -332,6 +332,11 @@ ADDENDA = {
     "C36": "Also decided: every occurrence of a bucket/proof/reservation in an invocation's arguments is consumed (no collapsing collection between the walk and consume_*).",
     "C40": "Also decided: proofs of the controlled asset are created only behind the primary-role Unlocked arm.",
     "C41": "Also decided: inside contribute a value is rounded up only where no pool units are in circulation.",
+    "C17": "Also decided: the jellyfish collapse condition tests old and new children symmetrically (both at most one).",
+    "C23": "Also decided: NumericValidation::compare orders the effective bounds, never the raw Option bounds.",
+    "C25": "Also decided: Decimal and PreciseDecimal checked_round perform the same operations per strategy arm.",
+    "C29": "Also decided: is_leap_year uses the Gregorian constants 4/100/400 (or the equivalent bit form).",
+    "C31": "Also decided: the skipped-characters amount of create_snippet is accumulated in chars, not bytes.",
     "C14": "Also decided: merging a commit never shrinks a staged Delta map (a Delete stays recorded as a tombstone).",
     "C16": "Also decided: audited panic surface of the key mapper (a key the writer emits always maps back).",
     "C37": "Also decided: a general constraint is declared valid only after lower/upper, required/upper and lower/allow-list-size have been compared and required ids tested to be a subset of the allow-list.",
